@@ -46,15 +46,16 @@ const (
 	opChanRecv
 	opCount
 	opScheduleT
+	opChanPeek // GetChannel() without receiving (what every select loop does on each iteration)
 	numOps
 )
 
-var opNames = []string{"Post/Send/Offer/Schedule/YieldFrom", "Put", "Take", "TakeWithTimeout", "Poll", "GetChannel+recv", "Count", "ScheduleWithTimeout"}
+var opNames = []string{"Post/Send/Offer/Schedule/YieldFrom", "Put", "Take", "TakeWithTimeout", "Poll", "GetChannel+recv", "Count", "ScheduleWithTimeout", "GetChannel(peek)"}
 
 func opsOf(kind int) []int {
 	switch kind {
 	case kQueue:
-		return []int{opPost, opPut, opTake, opTakeT, opPoll, opChanRecv, opCount}
+		return []int{opPost, opPut, opTake, opTakeT, opPoll, opChanRecv, opCount, opChanPeek}
 	case kPool:
 		return []int{opPost, opScheduleT}
 	}
@@ -78,7 +79,7 @@ func windowPoint(kind, op int) string {
 			return "bcq.takeWithTimeout.afterClosedCheck"
 		case opPoll:
 			return "bcq.poll.afterClosedCheck"
-		case opChanRecv:
+		case opChanRecv, opChanPeek:
 			return "bcq.getChannel.entry"
 		case opCount:
 			return "bcq.count.afterClosedCheck"
@@ -118,19 +119,22 @@ var allPoints = [][]string{
 }
 
 type scenario struct {
-	Kind       int       `json:"kind"`
-	Users      [][]int   `json:"users"`      // per user: cyclic op list
-	Iters      int       `json:"iters"`      // operations per user before the close...
-	After      int       `json:"after"`      // ...and operations per user that begin after the close returned
-	CloseAfter int       `json:"closeAfter"` // close once that many user operations have started (undirected)
-	Directed   int       `json:"directed"`   // op whose window is entered on purpose (-1 = none); -2 = worker/loader window
-	Cap        int       `json:"cap"`        // mailbox / channel capacity
-	Plan       vlib.Plan `json:"plan"`
+	Kind       int     `json:"kind"`
+	Users      [][]int `json:"users"`      // per user: cyclic op list
+	Iters      int     `json:"iters"`      // operations per user before the close...
+	After      int     `json:"after"`      // ...and operations per user that begin after the close returned
+	CloseAfter int     `json:"closeAfter"` // close once that many user operations have started (undirected)
+	Directed   int     `json:"directed"`   // op whose window is entered on purpose (-1 = none); -2 = worker/loader window
+	Cap        int     `json:"cap"`        // mailbox / channel capacity
+	// Stress: no hook is installed (the instrumentation itself slows Close down and hides narrow
+	// un-instrumented windows) and users run their operations in tight batches
+	Stress bool      `json:"stress"`
+	Plan   vlib.Plan `json:"plan"`
 }
 
 func (s scenario) String() string {
 	var sb strings.Builder
-	fmt.Fprintf(&sb, "%s cap=%d iters=%d after=%d closeAfter=%d", kindNames[s.Kind], s.Cap, s.Iters, s.After, s.CloseAfter)
+	fmt.Fprintf(&sb, "%s cap=%d iters=%d after=%d closeAfter=%d stress=%v", kindNames[s.Kind], s.Cap, s.Iters, s.After, s.CloseAfter, s.Stress)
 	if s.Directed >= 0 {
 		fmt.Fprintf(&sb, " directed=%s@%s", opNames[s.Directed], windowPoint(s.Kind, s.Directed))
 	} else if s.Directed == -2 {
@@ -205,10 +209,12 @@ func runScenario(s scenario) result {
 		}
 	}
 	sched := vlib.NewSched(plan)
-	fpgo.SetVerifHook(sched.Hook)
-	worker.SetVerifHook(sched.Hook)
-	defer fpgo.SetVerifHook(nil)
-	defer worker.SetVerifHook(nil)
+	if !s.Stress {
+		fpgo.SetVerifHook(sched.Hook)
+		worker.SetVerifHook(sched.Hook)
+		defer fpgo.SetVerifHook(nil)
+		defer worker.SetVerifHook(nil)
+	}
 	defer sched.Disable()
 
 	var closeReturned int32
@@ -277,6 +283,8 @@ func runScenario(s scenario) result {
 				case <-q.GetChannel():
 				case <-time.After(100 * time.Microsecond):
 				}
+			case opChanPeek:
+				_ = len(q.GetChannel())
 			case opCount:
 				if n := q.Count(); late && n != 0 {
 					fail("C15/queue.Count-after-close", "Count() after Close() returned is %d", n)
@@ -360,8 +368,13 @@ func runScenario(s scenario) result {
 		}
 		// the close "has returned" for a coroutine once close() finished closing its channels
 		if s.Kind == kCor {
-			sched.Wait("hit:cor.close.closed", 50*time.Millisecond)
-			time.Sleep(20 * time.Microsecond)
+			if s.Stress {
+				vlib.WaitUntil(50*time.Millisecond, func() bool { return isClosed() })
+				time.Sleep(100 * time.Microsecond)
+			} else {
+				sched.Wait("hit:cor.close.closed", 50*time.Millisecond)
+				time.Sleep(20 * time.Microsecond)
+			}
 		}
 		atomic.StoreInt32(&closeReturned, 1)
 	}()
@@ -443,7 +456,15 @@ func userLoop(wg *sync.WaitGroup, u int, s scenario, start chan struct{}, closeR
 		}
 		op := ops[i%len(ops)]
 		atomic.AddInt64(opsStarted, 1)
-		if p, st := vlib.Try(func() { doOp(u, op, late) }); p != nil {
+		batch := 1
+		if s.Stress && !late {
+			batch = 25
+		}
+		if p, st := vlib.Try(func() {
+			for b := 0; b < batch; b++ {
+				doOp(u, op, late)
+			}
+		}); p != nil {
 			site := panicSite(st)
 			fail("C15/panic:"+site, "%s user %d: %s panicked: %v\n%s", kindNames[s.Kind], u, opNames[op], p, st)
 			return
@@ -543,6 +564,37 @@ func TestDirected(t *testing.T) {
 		}
 	}
 	vlib.S().Note("directed: every (kind, op) window x %d repetitions", reps)
+}
+
+// TestStress reaches the windows that have no hook: many users hammer one operation (plus a
+// few producers keeping the object busy/overflowed) while the close lands at a drawn moment;
+// no parking, just density and repetition.
+func TestStress(t *testing.T) {
+	if vlib.Replaying() {
+		t.Skip()
+	}
+	reps := vlib.Pick(40, 400)
+	for kind := 0; kind < numKinds; kind++ {
+		for _, op := range opsOf(kind) {
+			for rep := 0; rep < reps; rep++ {
+				users := [][]int{}
+				for u := 0; u < 6; u++ {
+					users = append(users, []int{op})
+				}
+				users = append(users, []int{opPost}, []int{opPost})
+				s := scenario{Kind: kind, Users: users, Iters: 300, After: 1, CloseAfter: 20 + (rep*37)%400, Directed: -1, Cap: []int{1, 0, 4}[rep%3], Stress: true}
+				if kind == kCor {
+					s.CloseAfter = rep % 12
+				}
+				vlib.S().Eval("stress")
+				res := runScenario(s)
+				if res.windowEntered {
+					vlib.S().NonTrivial("stress", fmt.Sprintf("%s op=%s cap=%d closeAfter=%d", kindNames[kind], opNames[op], s.Cap, s.CloseAfter))
+				}
+				report(t, s, res, func() {})
+			}
+		}
+	}
 }
 
 func TestReplayJSON(t *testing.T) {
